@@ -157,6 +157,15 @@ def gen_config(rng, profile="any", tier="quick"):
                     w[a] = -w[a]
         if not w:
             w[assets[0]] = 1.0
+        if rng.random() < 0.12:
+            # almost-normalised vectors: thirds rounded to six decimals, 1 +/- a few 1e-6
+            ks = sorted(w)
+            base = round(1.0 / len(ks), 6)
+            w = dict((a, base) for a in ks)
+            if rng.random() < 0.5:
+                w[ks[0]] = round(w[ks[0]] + rng.choice([-9e-6, -2e-6, 1e-6, 2e-6, 6e-6, 2e-5]), 6)
+            if not long_only and rng.random() < 0.3:
+                w[ks[-1]] = -w[ks[-1]]
         if rng.random() < 0.06:
             w = dict((a, 0.0) for a in w)                           # all-zero weights
         if dynamic is False and rng.random() < 0.1 and len(assets) > 1:
